@@ -195,7 +195,10 @@ note_completion(nni_task *task, bool sync)
 		    "its previous completion has not yet begun",
 		    e->id, (int) aio->a_result);
 	}
-	if (e->in_start)
+	// completions of submissions that were never accepted by nni_aio_start
+	// (refused starts, and providers that fail a submission synchronously
+	// without starting it) are new submissions, not late completions
+	if (e->in_start || !e->accepted)
 		e->refusal_mask |= 1ull << (e->completions & 63);
 	else
 		e->refusal_mask &= ~(1ull << (e->completions & 63));
